@@ -13,6 +13,7 @@ CLUSTER_NOTE = ("Sequentially consistent interleavings, deviation-bounded at coa
                 "preemption points in the cluster harness; the component harnesses of C03/C04/C08 cover those); gRPC replaced by "
                 "in-process transports; one shard, <=4 nodes, one fault per scenario; virtual time.")
 T_SCHED = "stateless model checking of the implementation (controlled cooperative scheduler, deviation-bounded DFS over schedules)"
+T_FSM = "explicit-state model checking of the follower controller as a protocol state machine (all event sequences up to a depth replayed on the real controller against a list model)"
 T_SEQX = "explicit-state model checking of the implementation (BFS over operation sequences with state de-duplication against a reference model)"
 
 # id -> dict(stages=[harness ids], level, text, ref, note, technique, engine)
@@ -26,15 +27,15 @@ add('C01', ['C01'], 'exploration',
 add('C02', ['C02', 'C02S'], 'exploration',
     "Stage 1: same cluster executions with clients issuing colliding puts and gets; invoke/return stamped by scheduler step; per-key linearizability decided by porcupine (unknown outcomes may take effect once or never); stale reads only from deposed leaders; no read may return a value that is absent from the final committed log. Stage 2: fine-grained schedules of writers colliding on one key on a real RF=3 leader: the state reads are served from equals the fold of the committed log, responses match their requests.",
     "DESIGN.md §3 C02", CLUSTER_NOTE, T_SCHED + " + porcupine linearizability checking of every explored history", 'sched')
-add('C03', ['C03'], 'exploration',
-    "Same cluster executions; at the instant a follower hands Ack(o) to a term-T stream its synced log must equal the term-T leader's log at every offset <= o (shadow logs recorded at the WAL seam); committed prefixes of all replicas are compared with the final leader at the end.",
-    "DESIGN.md §3 C03", CLUSTER_NOTE, T_SCHED, 'sched')
-add('C04', ['C04'], 'exploration',
-    "Stateless exploration of NewTerm(T+1) racing with in-flight client writes on a real leader controller (RF=3, acknowledging scripted followers) and with in-flight appends and pending WAL syncs on a real follower controller: every schedule with <=2 (thorough <=3) non-default scheduling choices at every lock/atomic/channel point; reported head == end of the node's log at quiescence, no ack / acknowledged write beyond the reported head, old-term writes and appends refused after the answer.",
-    "DESIGN.md §3 C04", SCHED_NOTE + " Peers are scripted; the director path is exercised by the cluster harness of C05.", T_SCHED, 'sched')
-add('C05', ['C05'], 'exploration',
-    "Cluster harness with election-safety monitors evaluated at every scheduling point and at every coordination RPC (scenarios as C01 plus lost BecomeLeader answer and coordinator crash right after BecomeLeader): at most one LEADER per term and at most one node told to lead a term; node terms never decrease (also across crash+restart on the crash-simulating FS); every NewTerm/BecomeLeader carries a term that is durable in the metadata store and not below any term sent before (also across coordinator crash+restart); BecomeLeader only after a fenced majority, to an ensemble member whose head is maximal among the fenced ensemble members, with followers from the stored ensemble only.",
-    "DESIGN.md §3 C05", CLUSTER_NOTE, T_SCHED + " over real servers and coordinator with crash/fault injection", 'sched')
+add('C03', ['C03', 'C03F'], 'exploration',
+    "Stage 1: same cluster executions; at the instant a follower hands Ack(o) to a term-T stream its synced log must equal the term-T leader's log at every offset <= o (shadow logs recorded at the WAL seam); committed prefixes of all replicas are compared with the final leader at the end. Stage 2: explicit-state search of the follower as a protocol state machine (every sequence of 13 protocol events - new-term requests, appends of current / stale terms, truncation and its re-delivery, complete / interrupted / stale-term snapshot transfers, restart, crash - up to the depth, on a real follower controller): acknowledged entries stay stored with their leader's entry, the database is the fold of what the node holds.",
+    "DESIGN.md §3 C03, §7", CLUSTER_NOTE, T_SCHED + " + " + T_FSM, 'sched+fsm')
+add('C04', ['C04', 'C04F'], 'exploration',
+    "Stage 1: stateless exploration of NewTerm(T+1) racing with in-flight client writes on a real leader controller (RF=3, acknowledging scripted followers) and with in-flight appends and pending WAL syncs on a real follower controller: every schedule with <=2 (thorough <=3) non-default scheduling choices at every lock/atomic/channel point; reported head == end of the node's log at quiescence, no ack / acknowledged write beyond the reported head, old-term writes and appends refused after the answer. Stage 2: explicit-state search of the follower as a protocol state machine (13 protocol events, see C03): no acknowledgement, append, truncation or snapshot of an older term changes a fenced node; the reported head is the end of its log.",
+    "DESIGN.md §3 C04", SCHED_NOTE + " Peers are scripted; the director path is exercised by the cluster harness of C05.", T_SCHED + " + " + T_FSM, 'sched+fsm')
+add('C05', ['C05', 'C05F'], 'exploration',
+    "Cluster harness with election-safety monitors evaluated at every scheduling point and at every coordination RPC (scenarios as C01 plus lost BecomeLeader answer and coordinator crash right after BecomeLeader): at most one LEADER per term and at most one node told to lead a term; node terms never decrease (also across crash+restart on the crash-simulating FS); every NewTerm/BecomeLeader carries a term that is durable in the metadata store and not below any term sent before (also across coordinator crash+restart); BecomeLeader only after a fenced majority, to an ensemble member whose head is maximal among the fenced ensemble members, with followers from the stored ensemble only. Stage 2 (node side): explicit-state search of the follower as a protocol state machine (13 protocol events, see C03): the term a node has answered for never decreases across restarts, crashes and snapshot transfers.",
+    "DESIGN.md §3 C05", CLUSTER_NOTE, T_SCHED + " over real servers and coordinator with crash/fault injection + " + T_FSM, 'sched+fsm')
 add('C06', ['C06', 'C06S'], 'model_checking',
     "Stage 1: differential explicit-state search: every history of write requests (puts, conditional puts, deletes, range deletes below/above the threshold, session records, sequence puts, secondary indexes) up to the depth bound is applied through six routes (live, replay on a second DB, close+reopen at every split, crash on a strict in-memory FS + replay from the stored commit offset, snapshot with several chunk sizes + replay, real leader) and the full ordered dumps must be identical. Stage 2: schedule exploration of the real cluster (client cancellation, failed BecomeLeader, rolling isolation, crash+restart, spurious failover): at the end every replica's database equals the fold of the final leader's log up to the commit offset stored in that database.",
     "DESIGN.md §3 C06, §10", "Real kv.DB / Pebble; depth and alphabet bounded; differential oracle (no hand-written expected values). " + CLUSTER_NOTE, T_SEQX + ", differential between application routes + " + T_SCHED, 'seqx+sched')
@@ -122,6 +123,7 @@ for p in props:
 ENG = {
     'seqx': ("/verif/lib/seqx", "explicit-state BFS over operation sequences of the real object with replay-from-scratch successors and canonical-state de-duplication"),
     'sched': ("/verif/lib/sched + /verif/shim + /verif/tools/vinst + /verif/lib/oxc", "source instrumenter (sync/atomic/time/chan/select/go -> shims), cooperative scheduler with virtual time, deviation-bounded stateless DFS sharded over worker processes, cluster harness of real servers and coordinator"),
+    'fsm': ("/verif/lib/ffsm", "explicit-state search over follower protocol events: every event sequence up to a depth replayed from scratch on a real follower controller (under the cooperative scheduler's default schedule) against a list model"),
     'e3': ("/verif/h/c07, /verif/h/c10", "fault enumerators: Pebble strict-FS crash points, WAL crash/corruption images"),
     'enum': ("/verif/h/c11, /verif/h/c13, /verif/h/c19", "exhaustive enumeration of bounded input universes against reference models"),
 }
